@@ -106,8 +106,8 @@ func (in *Instance) QueryView(limit uint64) (q M) {
 	if r, err := k.SignatureThreshold(ctx, &types.QueryGetSignatureThresholdRequest{}); err == nil {
 		q["threshold"] = ThresholdSym(r.Amount.Amount)
 	}
-	if r, err := k.MaxMessageBodySize(ctx, &types.QueryGetMaxMessageBodySizeRequest{}); err == nil && r.Amount.Amount < 1<<30 {
-		q["maxBody"] = int(r.Amount.Amount)
+	if r, err := k.MaxMessageBodySize(ctx, &types.QueryGetMaxMessageBodySizeRequest{}); err == nil {
+		q["maxBody"] = SizeSym(r.Amount.Amount)
 	}
 	if r, err := k.NextAvailableNonce(ctx, &types.QueryGetNextAvailableNonceRequest{}); err == nil {
 		q["nextNonce"] = t.NonceSym(r.Nonce.Nonce)
